@@ -127,6 +127,43 @@ def collect_contract(rep):
 
 
 # ------------------------------------------------------------------ fill_query_params
+def _find_copy(cb, params, depth=4):
+    """the values the visitor consumes: whatever is reachable from the callback -- a variable of its closure, an attribute of the callable object it is
+    (or is a method of), a closure stored in such an attribute -- and holds a copy of the caller's list (names are not part of the contract)"""
+    seen = set()
+    direct = []
+
+    def walk(v, d):
+        if v is None or id(v) in seen or d < 0:
+            return None
+        seen.add(id(v))
+        if isinstance(v, SymSeq):
+            if getattr(v, 'copy_of', (None,))[0] is params:
+                return v
+            if v is params:
+                direct.append(v)
+            return None
+        if isinstance(v, SymObj):
+            for f in (v.fields or {}).values():
+                r = walk(f, d - 1)
+                if r is not None:
+                    return r
+            return None
+        r = walk(getattr(v, 'self_obj', None), d - 1)
+        if r is not None:
+            return r
+        e_ = getattr(v, 'env', None)
+        while e_ is not None and hasattr(e_, 'vars'):
+            for f in list(e_.vars.values()):
+                r = walk(f, d - 1)
+                if r is not None:
+                    return r
+            e_ = getattr(e_, 'parent', None)
+        return None
+    r = walk(cb, depth)
+    return r if r is not None else (direct[0] if direct else None)
+
+
 def fill_contract(rep):
     from mindsdb_sql.parser import ast
     fn = f'{UTILS}:fill_query_params'
@@ -145,22 +182,7 @@ def fill_contract(rep):
         if len(tr) == 1:
             cb = tr[0].callback
             # the values the visitor consumes: whichever variable of its closure holds a copy of the caller's list (the name is not part of the contract)
-            st['cp'] = None
-            # ... or an attribute of the callable object the visitor is a method of
-            owner = cb if isinstance(cb, SymObj) else getattr(cb, 'self_obj', None)
-            if isinstance(owner, SymObj):
-                for v_ in (owner.fields or {}).values():
-                    if isinstance(v_, SymSeq) and getattr(v_, 'copy_of', (None,))[0] is params:
-                        st['cp'] = v_
-            e_ = getattr(cb, 'env', None) if st['cp'] is None else None
-            while e_ is not None and st['cp'] is None:
-                for v_ in e_.vars.values():
-                    if isinstance(v_, SymSeq) and getattr(v_, 'copy_of', (None,))[0] is params:
-                        st['cp'] = v_
-                        break
-                    if v_ is params:
-                        st['cp'] = v_
-                e_ = e_.parent
+            st['cp'] = _find_copy(cb, params)
             p1 = SymObj({ast.Parameter}, 'param1', prov='param')
             other = SymObj(None, 'other', prov='param')
             other.known_not_none = True
